@@ -1,4 +1,5 @@
 import HawkModel.Gc
+import HawkModel.GcCall
 import HawkModel.Drv.Util
 /-! driver for the gc area (C07): one client operation per line in, canonical heap dump out.
 Same protocol as harness/gc_h.c.  `new legacy` selects the model of the code before the repair. -/
@@ -59,6 +60,17 @@ def core (s : St) (ws : List String) : Option (St × String × Bool) :=
   | ["drop", o] => match o.toNat? with
     | some o => optCore s (dropRoot s o)
     | _ => none
+  | ["call", f, a, b] =>
+    let fn : Option Fn := match f with
+      | "keep" => some .keep | "drop2" => some .drop2 | "dropr" => some .drop2 | "store" => some .store | "wrap" => some .wrap
+      | "cyc" => some .cyc | "fail" => some .cyc | "quit" => some .cyc      -- other code of run.c, same effect on the ledger
+      | _ => none
+    match fn, a.toNat?, b.toNat? with
+    | some fn, some a, some b =>
+      match call s fn a b with
+      | some s' => some (s', if fn == .wrap then toString s.heap.length else "ok", true)
+      | none => some (s, "ERR", true)
+    | _, _, _ => none
   | ["gc", g] => match g.toInt? with
     | some g => let (s', r) := gc s g; some (s', toString r, true)
     | _ => none
